@@ -4,7 +4,7 @@ import cxx_specs as S
 
 PROPERTY = "C05"
 LEVEL = "proof"
-EXPLANATION = ""
+EXPLANATION = ('Proof that compileInstruction decodes every 64-bit instruction word into the bytecode the specification prescribes (kind by opcode range, operands, masks, immediates, branch target and register-usage bookkeeping) and that each of the 29 executeInstruction arms computes the specified register / scratchpad effect for all operand values, with 64x64 multiplication, floating-point lane operations and scratchpad memory as uninterpreted functions tied to the real helpers by their own body obligations.')
 TRUSTED = ["suites/common/spec_isa.h: independent C reading of doc/specs.md ch.5 (the oracle)",
            "C++ -> C extraction rules of rxv/cxx2c.py (listed in extraction_rules_fired)"]
 ASSUMPTIONS = []
